@@ -252,7 +252,28 @@ pub fn judge(
         }
         Verdict::Reject(why) => {
             case.rep.count("judged:model-reject");
-            if !o.is_stderr() {
+            // a level with `fallback_to_usage` that is given nothing (but `--`) answers a failure
+            // with its usage on stdout - by request
+            let usage_by_request = matches!(o, Outcome::Stdout { .. }) && {
+                let mut cur = spec;
+                let mut after = 0;
+                for (j, a) in argv.iter().enumerate() {
+                    let mut cmds = Vec::new();
+                    cur.root.level_cmds(&mut cmds);
+                    let hit = cmds.into_iter().find(|c| {
+                        c.names.iter().any(|n| n.as_bytes() == a.as_slice())
+                            || c.shorts.iter().any(|s| s.to_string().as_bytes() == a.as_slice())
+                    });
+                    if let Some(c) = hit {
+                        cur = &c.opts;
+                        after = j + 1;
+                    }
+                }
+                cur.fallback_to_usage && argv[after..].iter().all(|a| a == b"--")
+            };
+            if usage_by_request {
+                case.rep.count("judged:usage-by-request");
+            } else if !o.is_stderr() {
                 case.rep.violation(
                     &format!("rejected-but-{}", o.class()),
                     "recogniser-reject",
